@@ -5,7 +5,7 @@ from __future__ import annotations
 import itertools
 import random
 import re
-from typing import Set
+from typing import List, Set
 
 import attrs
 
@@ -26,13 +26,15 @@ def K(v):
 
 
 TKINDS = {"TUntyped": None, "TFound": Sup, "TNotFound": Unsup, "TLazyNotFound": Set[Unsup], "TRecursive": "self",
+          # a list of a class nobody can structure: the list hook factory looks the element hook up when the hook is CREATED, so no hook is found
+          "TNotFoundList": List[Unsup],
           # primitive types: the born-with hook calls the class (int("7")); the raw value is of another class, so hook(raw) != raw
           "TPrimInt": int, "TPrimStr": str,
           # a TypeVar-typed attribute of a generic class, used as FC[Sup]: the hook of the SUBSTITUTED type (Converter's generated hooks only)
           "TGeneric": "typevar"}
 PRIM_RAW = {"TPrimInt": ("7", 7), "TPrimStr": (5, "5")}
 # in the model a primitive type is a type whose hook is found
-TK_COQ = {"TPrimInt": "TFound", "TPrimStr": "TFound", "TGeneric": "TFound"}
+TK_COQ = {"TPrimInt": "TFound", "TPrimStr": "TFound", "TGeneric": "TFound", "TNotFoundList": "TNotFound"}
 _TV = __import__("typing").TypeVar("_TV")
 
 
@@ -63,7 +65,7 @@ def classify(v, raw, cl=None, hooked=None):
 
 
 def doc_rule(has_conv, prefer, tk):
-    exists = {"TUntyped": None, "TFound": True, "TNotFound": False, "TLazyNotFound": False, "TRecursive": True, "TPrimInt": True, "TPrimStr": True, "TGeneric": True}[tk]
+    exists = {"TUntyped": None, "TFound": True, "TNotFound": False, "TLazyNotFound": False, "TNotFoundList": False, "TRecursive": True, "TPrimInt": True, "TPrimStr": True, "TGeneric": True}[tk]
     if has_conv:
         if prefer:
             return "(VK VRaw)"
@@ -123,7 +125,7 @@ def check_c20(v: Verdict, tier):
                 if tk == "TRecursive" and not with_default:
                     continue              # the self-reference needs a default (the nested payload leaves it out)
                 cl, names = build(tk, has_conv, position, n_extra, with_default)
-                raw = [1] if tk == "TLazyNotFound" else "raw"
+                raw = [1] if tk in ("TLazyNotFound", "TNotFoundList") else "raw"
                 hooked = None
                 if tk in PRIM_RAW:
                     raw, hooked = PRIM_RAW[tk]
@@ -206,7 +208,7 @@ def check_c20(v: Verdict, tier):
                             if got != exp:
                                 v.violation("default of an absent attribute was not left to attrs", {"lane": "FIELD/C20", **desc, "got": repr(got)})
                         except Exception as e:
-                            if not (tk in ("TNotFound", "TLazyNotFound") and not has_conv) and not (generated and tk == "TLazyNotFound"):
+                            if not (tk in ("TNotFound", "TLazyNotFound", "TNotFoundList") and not has_conv) and not (generated and tk == "TLazyNotFound"):
                                 # hook generation legitimately fails for unsupported types without a converter
                                 v.violation("structuring with the attribute absent failed", {"lane": "FIELD/C20", **desc, "error": repr(e)})
     if len(v.samples) < 4:
